@@ -523,6 +523,7 @@ Definition has_frag_leaf (l : list (path * leaf)) : bool :=
 
 Definition oracle_key (S : schema) (d : document) (specific : string) : string :=
   if negb (schema_loadable S) then "type-ref-deeper-than-introspection-query"
+  else if blank_member S d then "blank-field-name"
   else if excl_decl_clash_s S d then "decl-name-clash"
   else specific.
 
